@@ -104,6 +104,7 @@ type Exec struct {
 	P         *Loaded
 	st        *State
 	cleanExit *Term // path conditions of os.Exit(0) in driver mode
+	loopSeen, loopBack map[string]bool // loops cut by invariants / whose back edge was reached
 	assumes   []*Term
 	obls      []*Obligation
 	inputs    []inputRec
